@@ -155,4 +155,38 @@ VARIANTS = [
     ("C20", "reamber/base/Hold.py", "import item_props\n\n\n@item_props()\nclass HoldTail(Note):", "import item_props\nfrom reamber.base.Timed import Timed\n\n\n@item_props()\nclass HoldTail(Timed):", T, ""),
     ("C06", "reamber/quaver/QuaNoteMeta.py", '_props = dict(keysounds=["object", []])', '_props = dict(keysounds=["object", None])', B, "C06.R3"),
     ("C06", "reamber/algorithms/generate/sv_normalize.py", "return SvList(df_bpm.loc[:, SvList([]).df.columns])", 'return SvList(df_bpm.drop(columns="bpm"))', B, "C06.R9"),
+    # ---- rules added after seeding round 3 (overrides, generated accessors, hidden state, units, paired tables, cells)
+    ("C16", "reamber/base/lists/notes/NoteList.py", '    """Extends from the TimedList to give more base functions to Notes"""\n\n    ...', '    """Extends from the TimedList to give more base functions to Notes"""\n\n    def sorted(self, reverse: bool = False):\n        return self.__class__(self.df.sort_values(["offset", "column"], ascending=not reverse))', B, "C16.R12"),
+    ("C16", "reamber/base/lists/notes/NoteList.py", '    """Extends from the TimedList to give more base functions to Notes"""\n\n    ...', '    """Extends from the TimedList to give more base functions to Notes"""\n\n    def sorted(self, reverse: bool = False):\n        return super().sorted(reverse=reverse)', T, ""),
+    ("C16", "reamber/base/Property.py", "            def setter(self, val, k_=k):\n                self.df[k_] = val", "            def setter(self, val, k_=k):\n                if hasattr(val, '__len__') and len(val) == 0:\n                    return\n                self.df[k_] = val", B, "C16.R11"),
+    ("C16", "reamber/base/Property.py", "            def setter(self, val, k_=k):\n                self.df[k_] = val", "            def setter(self, val, k_=k):\n                self.df[k_] = val.astype(self.df[k_].dtype) if hasattr(val, 'astype') else val", B, "C16.R11"),
+    ("C16", "reamber/base/Property.py", "                self.objs[k_].df = val.df", "                df = val.df\n                self.objs[k_].df = df", T, ""),
+    ("C16", "reamber/base/Property.py", "                self.objs[k_].df = val.df", "                self.objs[k_].df = val.df.astype(self.objs[k_].df.dtypes.to_dict())", B, "C16.R11"),
+    ("C16", "reamber/osu/OsuSample.py", "offset=offset, sample_file=sample_file, volume=volume, **kwargs", "offset=int(offset), sample_file=sample_file, volume=volume, **kwargs", B, "C16.R7"),
+    ("C16", "reamber/base/lists/TimedList.py", "        self._df = value", "        self._df = value.reset_index(drop=True)", B, "C16.R12"),
+    ("C16", "reamber/base/lists/TimedList.py", "        first = self.first_offset()\n", "        first = self.offset.iloc[0]\n", B, "C16.R3"),
+    ("C12", "reamber/osu/OsuMap.py", "    def rate(self, by: float):", "    def stack(self, include_types=None):\n        objs = [*self.objs.values(), self.samples]\n        return self.Stacker(objs)\n\n    def rate(self, by: float):", B, "C12.R5"),
+    ("C12", "reamber/osu/OsuMap.py", "    def rate(self, by: float):", "    def deepcopy(self):\n        return self\n\n    def rate(self, by: float):", B, "C12.R9"),
+    ("C12", "reamber/osu/OsuMap.py", "    def rate(self, by: float):", "    def deepcopy(self):\n        return super().deepcopy()\n\n    def rate(self, by: float):", T, ""),
+    ("C19", "reamber/osu/OsuMap.py", "    def rate(self, by: float):", "    def stack(self, include_types=None):\n        objs = [*self.objs.values(), self.samples]\n        return self.Stacker(objs)\n\n    def rate(self, by: float):", B, "C19.D"),
+    ("C14", "reamber/base/lists/notes/HoldList.py", "        return self.offset + self.length", "        if getattr(self, '_t', None) is None:\n            self._t = self.offset + self.length\n        return self._t", B, "C14.R4"),
+    ("C14", "reamber/quaver/lists/notes/QuaHitList.py", "        df = self.df.copy()\n        df.column += 1", "        df = self.df.copy()\n        for ks in df.keysounds:\n            ks.clear()\n        df.column += 1", B, "C14.R5"),
+    ("C14", "reamber/quaver/lists/notes/QuaHitList.py", "        df = self.df.copy()\n        df.column += 1", "        df = self.df.copy()\n        df['keysounds'] = [list(ks) for ks in df.keysounds]\n        df.column += 1", T, ""),
+    ("C10", "reamber/base/RAConst.py", "return float(msecs * RAConst.MSEC_TO_SEC)", "return round(msecs * RAConst.MSEC_TO_SEC, 3)", B, "C10.R8"),
+    ("C10", "reamber/base/RAConst.py", "return float(msecs * RAConst.MSEC_TO_SEC)", "return float(RAConst.MSEC_TO_SEC * msecs)", T, ""),
+    ("C10", "reamber/base/RAConst.py", "return float(mins * RAConst.MIN_TO_MSEC)", "return mins * RAConst.MIN_TO_MSEC", B, "C10.R8"),
+    ("C10", "reamber/base/RAConst.py", "    SEC_TO_MSEC: float = 1000.0", "    SEC_TO_MSEC: float = 100.0", B, "C10.R8"),
+    ("C10", "reamber/algorithms/timing/utils/BpmChangeBase.py", "return RAConst.MIN_TO_MSEC / self.bpm", "return RAConst.MIN_TO_MSEC / max(self.bpm, 1)", B, "C10.R4"),
+    ("C10", "reamber/algorithms/timing/utils/bpm_changes_offset_to_snap.py", "        bcs_s.append(\n", "        if snap != bcs_s[-1].snap: bcs_s.append(\n", B, "C10.R9"),
+    ("C03", "reamber/base/RAConst.py", "return float(msecs * RAConst.MSEC_TO_SEC)", "return round(msecs * RAConst.MSEC_TO_SEC, 3)", B, "C03.D"),
+    ("C03", "reamber/sm/SMMapMeta.py", "        elif chart == SMMapChartTypes.DANCE_THREEPANEL:\n            return 3", "        elif chart == SMMapChartTypes.DANCE_THREEPANEL:\n            return 4", B, "C03.D"),
+    ("C08", "reamber/quaver/QuaMapMeta.py", "        elif s == QuaMapMode.KEYS_8:\n            return 8", "        elif s == QuaMapMode.KEYS_8:\n            return 7", B, "C08.R9"),
+    ("C02", "reamber/sm/SMMap.py", "                            key_sounds[col].append(snap_obj)\n                        snap_set.add(snap_obj)", "                            key_sounds[col].append(snap_obj)\n                            snap_set.add(snap_obj)", B, "C02.R10"),
+    ("C02", "reamber/base/RAConst.py", "return float(secs * RAConst.SEC_TO_MSEC)", "return float(round(secs * RAConst.SEC_TO_MSEC))", B, "C02.D"),
+    ("C07", "reamber/o2jam/O2JMap.py", "        events = [event for pkg in pkgs for event in pkg.events]\n        events.sort(key=lambda x: x.measure)", "        pkgs = sorted(pkgs, key=lambda x: x.measure)\n        events = [event for pkg in pkgs for event in pkg.events]", B, "C07.R9"),
+    ("C07", "reamber/o2jam/O2JMap.py", "        events.sort(key=lambda x: x.measure)", "        events = sorted(events, key=lambda x: x.measure)", T, ""),
+    ("C07", "reamber/base/RAConst.py", "return float(mins * RAConst.MIN_TO_MSEC)", "return mins * RAConst.MIN_TO_MSEC", B, "C07.D"),
+    ("C13", "reamber/quaver/lists/notes/QuaHoldList.py", "        df = self.df.copy()\n        df[\"EndTime\"]", "        df = self.df.astype(dict(offset=int, length=int))\n        df[\"EndTime\"]", B, "C13.D"),
+    ("C09", "reamber/quaver/lists/notes/QuaHitList.py", "        df = self.df.copy()\n        df.column += 1", "        df = self.df\n        df.column += 1", B, "C09.D"),
+    ("C01", "reamber/osu/OsuSampleSet.py", '        elif sample_set == "Drum":\n            return OsuSampleSet.DRUM', '        elif sample_set == "Drum":\n            return OsuSampleSet.SOFT', B, "C01.R1"),
 ]
